@@ -388,6 +388,27 @@ def overlap(ctx: Ctx):
     ctx.ob("overlap-df", where + "._df", cnf, snf, v, "df = non-overlapping valid cases of a and b")
     e = expand(ctx.repo, ci, "p_vals", stop=lambda m: m.name in ("t_stats", "_df"))
     ctx.check_expr("overlap-p", where + ".p_vals", e, "0.0 if self._idx_a == self._idx_b else 2 * (1 - t.cdf(abs(self.t_stats), df=self._df - 2))", "p on df - 2; a column against itself is never below any alpha... (reported as 0.0 and excluded by the index rule t<0 / same column)")
+    # the overlap bases differ from row to row (MR x MR: selected + other of the ROW item): whoever computes t / p / df for
+    # the sub-variable tests takes them per row - a literal row index picks one row's bases for every row
+    from ..stmts import resolver as _resolver
+
+    for cname in ("_PairwiseSigTStatsForSubvar", "_PairwiseSigPValsForSubvar"):
+        cc = ctx.repo.opt_cls(MM, cname)
+        if cc is None:
+            continue
+        hits = []
+        for mm in cc.members.values():
+            if not isinstance(mm.node, ast.FunctionDef):
+                continue
+            res_ = _resolver(mm.node, multi=True)
+            for n in ast.walk(mm.node):
+                if isinstance(n, ast.Subscript):
+                    first = n.slice.elts[0] if isinstance(n.slice, ast.Tuple) and n.slice.elts else n.slice
+                    if isinstance(first, ast.Constant) and isinstance(first.value, int) and not isinstance(first.value, bool):
+                        if any(t_.endswith("cube_overlaps.valid_bases") or t_.endswith("cube_overlaps.selected_bases") for t_ in (u(v) for v in res_(n.value))):
+                            hits.append(f"{mm.name}: {u(n)[:70]}")
+        ctx.ob("overlap-bases.per-row", f"{MM}::{cname}", hits or "the overlap bases are handed on whole, with the row index", "bases of the cell's own row", not hits,
+               "row 0's valid bases (degrees of freedom) used for every row: wrong p-values wherever the row items have different amounts of missing data")
     # overlap bases (AXIS)
     for cname, roles, exp_sel, exp_val in (
         ("_CatXMrOverlaps", ("R", "C", "Csel", "S"), "out=(R,C,S) R:Σ C:K Csel:F0 S:K", "out=(R,C,S) R:Σ C:K Csel:Σ[0:2] S:K"),
